@@ -294,6 +294,29 @@ def main():
         if ck.enough():
             break
         ck.guard(run_hashset, ck, gen_hashset_case(ck.rng))
+    # many generators, few parents, tight width: a one-hot word under the transpositions along the edges of a random
+    # tree (the Schreier graph IS that tree: 17..40 generators, every vertex has one parent); BFS-mode walks whose width
+    # is exactly the largest layer and whose length exceeds the diameter must return every vertex with its distance
+    for _ in range(4 if not ck.thorough else 60):
+        if ck.enough():
+            break
+        L = ck.rng.randint(18, 41)
+        kind = ck.rng.choice(["random-tree", "spider", "star-of-paths"])
+        parent = {v: (ck.rng.randrange(v) if kind == "random-tree" else (0 if v <= (L - 1) // 2 else v - (L - 1) // 2) if kind == "spider" else (0 if v < 6 else v - 5)) for v in range(1, L)}
+        gens = []
+        for v, u in parent.items():
+            p = list(range(L))
+            p[u], p[v] = v, u
+            gens.append(p)
+        ck.rng.shuffle(gens)
+        central = [0] * L
+        central[0] = 1
+        gd = graphs.GDef("perm", gens, central, tag="tree-" + kind)
+        layers = gd.brute_layers(cap=1000)
+        cfg = graphs.gen_cfg(ck.rng, gd)
+        case = {"gd": gd.to_json(), "cfg": cfg, "mode": "bfs", "width": max(len(l) for l in layers), "length": len(layers) + ck.rng.randint(1, 3), "start": None, "hist": 0, "container": "list"}
+        ck.guard(run_case, ck, case)
+        ck.count("tree graphs with tight width")
     # one run above 2^24 rows (float32 holds integers exactly only up to there), a larger one in the thorough tier
     for width, length in [(ck.rng.choice([4194305, 2**23, 5592407]), ck.rng.choice([3, 4, 5]))] + ([(2**24 + 3, 3), (3, 2**23 + 1)] if ck.thorough else []):
         if ck.enough():
